@@ -16,6 +16,7 @@ package standard
 import (
 	"context"
 	"fmt"
+	"math"
 	"time"
 
 	"github.com/attestantio/go-builder-client/spec"
@@ -35,6 +36,11 @@ func (s *Service) BuilderBid(ctx context.Context,
 	*spec.VersionedSignedBuilderBid,
 	error,
 ) {
+	// The slot is supplied by the caller of the builder API (a beacon node) and has not been validated.
+	if slot > math.MaxInt64 {
+		return nil, fmt.Errorf("slot %d out of range", slot)
+	}
+
 	ctx, span := otel.Tracer("attestantio.vouch.services.blockrelay.standard").Start(ctx, "BuilderBid", trace.WithAttributes(
 		attribute.Int64("slot", util.SlotToInt64(slot)),
 	))
